@@ -446,18 +446,24 @@ def library_mps(rng, model, qntot, m_max=4, percent=1.0, tries=6):
 
 # =====================================================================================  dense side
 def dense_chain(mp):
-    """Contract the site tensors (own einsum; no coeff).  Vector for Mps, matrix (up, down) else."""
+    """Contract the site tensors (own contraction, strict shapes; no coeff).  Vector for Mps,
+    matrix (up, down) otherwise.  Raises ValueError for a malformed chain (boundary bond != 1 or
+    neighbouring bond dimensions that do not match)."""
     arrs = [np.asarray(mp[i].array) for i in range(len(mp))]
+    if arrs[0].shape[0] != 1 or arrs[-1].shape[-1] != 1:
+        raise ValueError(f"malformed chain: boundary bonds {arrs[0].shape[0]}, {arrs[-1].shape[-1]}")
+    for x, y in zip(arrs[:-1], arrs[1:]):
+        if x.shape[-1] != y.shape[0]:
+            raise ValueError("malformed chain: neighbouring bond dimensions differ")
     if arrs[0].ndim == 3:
         v = np.ones((1, 1), dtype=arrs[0].dtype)
         for a in arrs:
-            v = np.einsum("pa,asb->psb", v, a).reshape(-1, a.shape[2])
-        assert v.shape[1] == 1
+            v = np.tensordot(v, a, axes=([1], [0])).reshape(-1, a.shape[2])
         return v[:, 0]
-    v = np.ones((1, 1, 1), dtype=arrs[0].dtype)
+    v = np.ones((1, 1, 1), dtype=arrs[0].dtype)   # (up, down, bond)
     for a in arrs:
-        v = np.einsum("uda,axyb->uxdyb", v, a).reshape(v.shape[0] * a.shape[1], v.shape[1] * a.shape[2], a.shape[3])
-    assert v.shape[2] == 1
+        v = np.tensordot(v, a, axes=([2], [0]))                       # u d x y b
+        v = v.transpose(0, 2, 1, 3, 4).reshape(v.shape[0] * a.shape[1], v.shape[1] * a.shape[2], a.shape[3])
     return v[:, :, 0]
 
 
